@@ -18,21 +18,21 @@ NA = {
 CHECKS = {
     "C04": dict(
         level="exploration",
-        text="Seeded search over transport event scripts (timeouts, connection errors, empty reads, busy, pending storms, mismatching/malformed/late replies) under virtual time; every run is judged by a reference state machine of the statement driven by the transport-level history, plus liveness caps. Sampling, not enumeration.",
+        text="Seeded search over transport event scripts (timeouts, connection errors, empty reads, busy, pending storms, mismatching/malformed/late replies) under virtual time; every run is judged by a reference state machine of the statement driven by the transport-level history, plus liveness caps; writes that stall (bounded by the request timeout), reconnect() returning a new transport object. Sampling, not enumeration.",
         note="Trusted: asyncio's own loop/timer/queue code (run unmodified under a virtual clock); fixed reply byte classes per request kind; named client constants (poll 0.5 s, 120 pendings, max(T,20) s silence).",
         technique="deterministic simulation: real UDSClient/ECU on a virtual-time asyncio loop with a scripted fault-injecting transport; reference-model history check",
         ref="4/C04",
     ),
     "C05": dict(
         level="exploration",
-        text="Seeded schedules of 2-5 concurrent callers (incl. the cyclic tester-present worker, reconnect, wait_for_ecu, a cancellation at an arbitrary virtual instant) on one client; online mutual-exclusion and reply-attribution invariants over the tagged wire history and bounded progress after cancellation.",
+        text="Seeded schedules of 2-5 concurrent callers (incl. the cyclic tester-present worker, reconnect, wait_for_ecu, a cancellation at an arbitrary virtual instant) on one client; online mutual-exclusion and reply-attribution invariants over the tagged wire history (incl. 'no request while another task still reads') and bounded progress after cancellation or after a budgeted reconnect to an unreachable ECU.",
         note="Trusted: asyncio Lock/Task semantics as shipped; responder model echoes a unique tag per request.",
         technique="deterministic simulation: seeded task arrival/reply-delay/cancellation schedules on a virtual-time loop; invariant checking over the recorded wire history",
         ref="4/C05",
     ),
     "C06": dict(
         level="fault_enumeration",
-        text="Real DoIPTransport/DoIPConnection against a scripted DoIP gateway on the simulated network: stratified single-split offsets plus seeded multi-splits, frame interleavings (acks, NACKs, foreign/unknown frames, alive checks in every client phase), all activation types and response codes; byte-exact activation, demultiplexing model, write<=>ack, alive-check deadline.",
+        text="Real DoIPTransport/DoIPConnection against a scripted DoIP gateway on the simulated network: stratified single-split offsets plus seeded multi-splits, frame interleavings (acks, NACKs, foreign/unknown frames, alive checks in every client phase), all activation types and response codes; frames delivered in parts around protocol timer instants; byte-exact activation, demultiplexing model, write<=>ack, alive-check deadline.",
         note="Gateway model is a stub written from ISO 13400-2 and the code's comments; kernel socket buffering is not modelled.",
         technique="deterministic simulation with fault injection: seeded segmentation/interleaving/latency on simulated TCP streams; reference demultiplexing model",
         ref="4/C06",
@@ -46,42 +46,42 @@ CHECKS = {
     ),
     "C08": dict(
         level="fault_enumeration",
-        text="For tcp-lines, unix-lines, DoIP and HSFZ: the connection is cut (EOF / RST / black hole / stall) at every byte offset of a recorded exchange in both directions, under transport.read/write, UDSClient.request and wait_for_ecu, with peer restart delays; bounded completion (deadlock detector), outcome class, no fabricated data, recovery through reconnect, idempotent close.",
+        text="For tcp-lines, unix-lines, DoIP and HSFZ: the connection is cut (EOF / RST / black hole / stall) at every byte offset of a recorded exchange in both directions, under transport.read/write, UDSClient.request and wait_for_ecu, with peer restart delays; bounded completion (deadlock detector), outcome class, no fabricated data, recovery through reconnect (with the configured HSFZ ack time / DoIP tester identity still in force on the new connection), idempotent close.",
         note="Single cuts are stratified over all offsets of a canonical exchange per transport; double cuts sampled. No kernel buffer limits.",
         technique="deterministic simulation with fault injection: crash-point sweep over byte offsets of the simulated stream, virtual-time deadlock detection",
         ref="4/C08",
     ),
     "C09": dict(
         level="exploration",
-        text="The real SessionsScanner command (entry_point) against graph ECUs built on gallia's UDSServer default-response chain, over random transition graphs, depths, skip lists, tester-present phases, latencies and segmentations; result compared with BFS reachability on the model, stacks replayed, termination by virtual-time cap.",
+        text="The real SessionsScanner command (entry_point) against graph ECUs built on gallia's UDSServer default-response chain, over random transition graphs, depths, skip lists, tester-present phases, latencies and segmentations; result compared with BFS reachability on the model, stacks replayed, termination by virtual-time cap; ECUs that reboot some ms after acknowledging a reset or leave session requests unanswered.",
         note="Graphs give every session an edge to the default session (ISO precondition the scanner documents). No message loss injected.",
         technique="deterministic simulation: full scanner command on a virtual-time loop against a model ECU over a simulated network; graph-reachability oracle",
         ref="4/C09",
     ),
     "C10": dict(
         level="exploration",
-        text="Real ServicesScanner and ScanIdentifiers commands against model ECUs with drawn service tables; ground truth computed from an independent copy of the model; ECU-side monitor checks that every probe ran in the claimed session and skipped ids never hit the wire.",
+        text="Real ServicesScanner and ScanIdentifiers commands against model ECUs with drawn service tables; ground truth computed from an independent copy of the model; ECU-side monitor checks that every probe ran in the claimed session and skipped ids never hit the wire; ECUs that reboot after the acknowledgement, latency spikes below every timeout.",
         note="Model ECU subclasses RandomUDSServer, so identifier answers are gallia's own stateful_rng answers.",
         technique="deterministic simulation: full scanner commands on a virtual-time loop against model ECUs; ground-truth comparison and ECU-side session monitor",
         ref="4/C10",
     ),
     "C11": dict(
         level="fault_enumeration",
-        text="Real ECU + DBHandler on a simulated aiosqlite (real sqlite3 file, seeded per-statement latency so the writer lags) inside a real UDSScanner run; histories over every outcome class with crash/cancel points at arbitrary virtual instants; rows read back with sqlite3 and compared with the wire history.",
+        text="Real ECU + DBHandler on a simulated aiosqlite (real sqlite3 file, seeded per-statement latency so the writer lags) inside a real UDSScanner run; histories over every outcome class with crash/cancel points at arbitrary virtual instants; rows read back with sqlite3 and compared with the wire history; Ctrl-C also while the handler is being closed; a competing writer holding the database lock within the busy timeout (order still judged).",
         note="aiosqlite's thread proxy is replaced by a deterministic awaitable with the same API; transient 'database is locked' errors only in separately counted configurations (row order not judged there).",
         technique="deterministic simulation with crash-point injection: slow storage worker, SIGINT/exception at arbitrary virtual instants; history check of rows vs wire log",
         ref="4/C11",
     ),
     "C12": dict(
         level="exploration",
-        text="Record phase (real ECU + DBHandler vs RandomUDSServer over the simulated network) then replay phase (real DBUDSServer on the recorded file); reply bytes compared position by position, presupposition monitor on state tracking; databases with several runs/ECUs/addresses, a discovery run before the scans, replies lost or later than the tester's timeout, wall clock stepping backwards while recording.",
+        text="Record phase (real ECU + DBHandler vs RandomUDSServer over the simulated network) then replay phase (real DBUDSServer on the recorded file); reply bytes compared position by position, presupposition monitor on state tracking; databases with several runs/ECUs/addresses, a discovery run before the scans, replies lost or later than the tester's timeout, wall clock stepping backwards while recording, a second writer holding the database lock while recording.",
         note="Silent-row configuration is reported separately.",
         technique="deterministic simulation: two-phase record/replay on a virtual-time loop with simulated storage; position-wise byte comparison",
         ref="4/C12",
     ),
     "C13": dict(
         level="exploration",
-        text="Real RandomUDSServer behind handle_request (clock seam) checked operation by operation against an executable model of the ISO 14229-1 default-response rules, over seeds, randomness parameters, behaviour-switch subsets, histories with idle gaps around the 10 s inactivity limit.",
+        text="Real RandomUDSServer behind handle_request (clock seam) checked operation by operation against an executable model of the ISO 14229-1 default-response rules, over seeds, randomness parameters, behaviour-switch subsets, histories with idle gaps around the 10 s inactivity limit; two testers overlapping inside slow handlers; twin run against the all-behaviours-on server for 'disabling one behaviour only removes that rule'.",
         note="Whether a request is parsable is taken from gallia's own request parser; sub-function service table is independent.",
         technique="deterministic simulation: virtual ECU under a simulated wall clock, seeded request histories; refinement check against an executable reference model",
         ref="4/C13",
@@ -95,21 +95,21 @@ CHECKS = {
     ),
     "C15": dict(
         level="fault_enumeration",
-        text="Command lifecycle under asyncio.Runner on the simulated loop: exit kind x lifecycle point x {artifacts, database, lock, hooks} x command kind, with SIGINT delivered through the real Runner handler at arbitrary virtual instants; exit code vs META.json vs run_meta vs log readability vs lock vs hook environment.",
+        text="Command lifecycle under asyncio.Runner on the simulated loop: exit kind x lifecycle point x {artifacts, database, lock, hooks} x command kind, with SIGINT delivered through the real Runner handler at arbitrary virtual instants; exit code vs META.json vs run_meta vs log readability vs lock vs hook environment; database locked by another process when the run entry is completed.",
         note="Real /bin/sh hooks, real zstd, real sqlite3; QueueListener thread and aiosqlite proxy replaced by deterministic equivalents.",
         technique="deterministic simulation with crash-point injection: lifecycle grid with SIGINT/exception injection at virtual instants; cross-artifact consistency oracle",
         ref="4/C15",
     ),
     "C16": dict(
         level="exploration",
-        text="The same seeds/arguments/histories are run in several fresh interpreters (different PYTHONHASHSEED, virtual epoch and pacing, wall clock stepping backwards, polluted global random state, import order, TZ, a sibling ECU with other arguments in the same process) and the model + transcript digests compared; model invariants (mandatory sessions/services, reachability, return path).",
+        text="The same seeds/arguments/histories are run in several fresh interpreters (different PYTHONHASHSEED, virtual epoch and pacing, wall clock stepping backwards, polluted global random state, import order, TZ, a sibling ECU with other arguments in the same process, the same ECU object set up a second time) and the model + transcript digests compared; model invariants (mandatory sessions/services, reachability, return path).",
         note="Security-access seeds are masked (deliberately fresh); gaps stay below the 10 s inactivity limit in every environment.",
         technique="deterministic simulation across process environments: identical seeded histories in fresh interpreters, digest comparison",
         ref="4/C16",
     ),
     "C17": dict(
         level="exploration",
-        text="Real logging pipeline (QueueHandler, _ZstdFileHandler, zstd) with the consumer thread replaced by a stepped consumer whose lag the plan controls; producers log at planned instants, close at an arbitrary instant; all reader modes evaluated over the produced artifacts (.zst, .gz, plain with / without / mixed priority prefix, stdin as a pipe with short reads).",
+        text="Real logging pipeline (QueueHandler, _ZstdFileHandler, zstd) with the consumer thread replaced by a stepped consumer whose lag the plan controls; producers log at planned instants, close at an arbitrary instant; all reader modes evaluated over the produced artifacts (.zst, .gz, plain with / without / mixed priority prefix, stdin as a pipe with short reads), incl. len() asked in the middle of a forward iteration.",
         note="Reader is a pure function of the file; it is evaluated as a history check over the simulated artifacts.",
         technique="deterministic simulation: stepped log consumer with seeded lag and close instant; history check of records read back in every reader mode",
         ref="4/C17",
